@@ -164,7 +164,75 @@ func genC01(rec *lib.Rec, r *lib.Rng, thorough bool) {
 			total += len(s)
 		}
 		rec.Op("M", "read walk "+strconv.FormatUint(T, 10)+" "+strconv.FormatUint(D, 10)+" "+segsStr(segs), total >= 16)
+		// the recursive consumers on the same hostile message (budget capped so that a copy stays small)
+		if T > 1<<20 {
+			T = 1 << 20
+		}
+		if i%3 == 0 {
+			lim := strconv.FormatUint(T, 10) + " " + strconv.FormatUint(D, 10) + " "
+			rec.Op("S", "read nopanic equal "+lim+segsStr(segs), total >= 16)
+			rec.Op("S", "read nopanic canon "+lim+segsStr(segs), total >= 16)
+			rec.Op("S", "read nopanic copy "+lim+segsStr(segs), total >= 16)
+		}
+		if i%7 == 0 { // framing entry points on arbitrary bytes
+			var raw []byte
+			switch r.Intn(3) {
+			case 0:
+				raw = frame(segs)
+				if r.Bool() && len(raw) > 0 {
+					raw = raw[:r.Intn(len(raw))]
+				}
+			case 1:
+				raw = frame(segs)
+				for k := 0; k < 3 && len(raw) > 0; k++ {
+					raw[r.Intn(min(len(raw), 16))] = byte(r.Pick(0, 1, 0xff, 0x7f, 0x3f, 0xfe, r.Intn(256)))
+				}
+			default:
+				raw = r.Bytes(r.Intn(48))
+			}
+			rec.Op("S", "read nopanic unmarshal "+lib.Hex(raw), len(raw) >= 8)
+			rec.Count("framing")
+		}
 	}
+	if Shard == 0 {
+		// hostile stream headers: segment counts at the edges of every field width
+		for _, n := range []uint32{0, 1, 510, 511, 512, 513, 0xfffe, 0xffff, 0x3ffffffd, 0x3ffffffe, 0x3fffffff, 0x40000000, 0x7fffffff, 0x80000000, 0xfffffffe, 0xffffffff} {
+			for _, tail := range []int{0, 4, 8, 12, 16, 40} {
+				b := make([]byte, 4+tail)
+				binary.LittleEndian.PutUint32(b, n)
+				for k := 4; k+4 <= len(b); k += 4 {
+					binary.LittleEndian.PutUint32(b[k:], uint32(r.Pick(0, 1, 2, 0xffffffff, 0x1fffffff, 0x20000000)))
+				}
+				rec.Op("S", "read nopanic unmarshal "+lib.Hex(b), true)
+			}
+		}
+	}
+}
+
+// frame is the stream framing of the segments, written from the encoding document.
+func frame(segs [][]byte) []byte {
+	var b []byte
+	var w [4]byte
+	binary.LittleEndian.PutUint32(w[:], uint32(len(segs)-1))
+	b = append(b, w[:]...)
+	for _, s := range segs {
+		binary.LittleEndian.PutUint32(w[:], uint32(len(s)/8))
+		b = append(b, w[:]...)
+	}
+	if len(segs)%2 == 0 {
+		b = append(b, 0, 0, 0, 0)
+	}
+	for _, s := range segs {
+		b = append(b, s...)
+	}
+	return b
+}
+
+func min(a, b int) int {
+	if a < b {
+		return a
+	}
+	return b
 }
 
 // cyclicMessages: pointer graphs with cycles and sharing, for the depth / traversal limits.
@@ -204,6 +272,19 @@ func genC02(rec *lib.Rec, r *lib.Rng, thorough bool) {
 					rec.Count("cyclic")
 				}
 			}
+		}
+	}
+	if Shard == 0 {
+		for D := 1; D <= 66; D++ {
+			for _, T := range []string{"64", "4096", "1048576"} {
+				rec.Op("S", "read copycycle "+T+" "+strconv.Itoa(D), true)
+			}
+		}
+		// races at budget exhaustion: the budget admits exactly one or two of the concurrent dereferences
+		cyc := "00000000010001002a00000000000000f8ffffff01000100"
+		for rep := 0; rep < map[bool]int{false: 300, true: 5000}[thorough]; rep++ {
+			rec.Op("S", "read conc "+strconv.Itoa(r.Pick(32, 48, 40, 64))+" "+strconv.Itoa(r.Pick(8, 16, 32))+" "+strconv.Itoa(r.Pick(1, 2, 50))+" "+cyc, true)
+			rec.Count("concurrent-exhaustion")
 		}
 	}
 	n := 3000
@@ -264,6 +345,39 @@ func renderVal(sb *strings.Builder, v *Val) {
 			}
 		}
 		sb.WriteString("]")
+		if v.N > 0 && v.EK == 7 {
+			sb.WriteString("^")
+			if v.PC == 0 {
+				sb.WriteString("E")
+			} else {
+				renderVal(sb, v.Elems[0].Ptrs[0])
+			}
+			sb.WriteString(",")
+			if v.DS == 0 {
+				sb.WriteString("0")
+			} else {
+				for _, b := range v.Elems[0].Data[:8] {
+					sb.WriteByte(hexdigits[b>>4])
+					sb.WriteByte(hexdigits[b&15])
+				}
+			}
+		} else if v.N > 0 && v.EK >= 2 && v.EK <= 5 {
+			w := elemBytes[v.EK]
+			sb.WriteString("^S{")
+			for _, b := range v.Prim[:w] {
+				sb.WriteByte(hexdigits[b>>4])
+				sb.WriteByte(hexdigits[b&15])
+			}
+			sb.WriteString("|}")
+			if v.EK == 5 {
+				for _, b := range v.Prim[:8] {
+					sb.WriteByte(hexdigits[b>>4])
+					sb.WriteByte(hexdigits[b&15])
+				}
+			} else {
+				sb.WriteString("0")
+			}
+		}
 	}
 }
 
